@@ -103,7 +103,10 @@ class Quadratic(Member):
         return self.c.copy()
 
     def prox(self, x, gamma):
-        return np.linalg.solve(np.eye(self.dim) + gamma * self.Q, x + gamma * self.Q @ self.c)
+        B = np.eye(self.dim) + gamma * self.Q
+        if np.linalg.eigvalsh((B + B.T) / 2).min() < 1e-3:
+            return None        # the proximal subproblem is not strongly convex (non-convex member)
+        return np.linalg.solve(B, x + gamma * self.Q @ self.c)
 
     def spectrum(self):
         return np.linalg.eigvalsh((self.Q + self.Q.T) / 2)
@@ -493,6 +496,8 @@ class LinearMap(Member):
     def fixed_point(self):
         # M (x - c) = x  <=> (M - I) x = M c
         try:
+            if np.linalg.cond(self.M - np.eye(self.dim)) > 1e6:
+                return None
             x = np.linalg.solve(self.M - np.eye(self.dim), self.M @ self.c)
             if np.max(np.abs(self.grad(x) - x)) < 1e-9:
                 return x
